@@ -32,17 +32,20 @@ type Finding struct {
 
 type Stats struct {
 	Events, Ticks, Rounds, RoundsSkipped, Sends, Merges, MergesInSection int
-	Sections, SecWrite, SecCommitW, SecAbortW                           int
-	HeldCommit, HeldAbort                                               int // >=1 tick and >=1 merge between first write and outcome
-	RoundInSecCommit                                                    int // a broadcast round started between write and commit
-	MergeInSecAbort                                                     int // a merge arrived during a writing section that aborted
-	CommitDuringRound                                                   int // commit while a broadcast round of the node was in flight
-	PayloadsChecked, ReadsJudged, ReadsDiscarded                        int
-	Obligations, ObligationsDecided                                     int
-	FinalReads                                                          int
-	ConvergenceJudged                                                   bool
-	Quiesced, End                                                       string
-	Harness                                                             []string
+	Sections, SecWrite, SecCommitW, SecAbortW                            int
+	HeldCommit, HeldAbort                                                int // >=1 tick and >=1 merge between first write and outcome
+	RoundInSecCommit                                                     int // a broadcast round started between write and commit
+	MergeInSecAbort                                                      int // a merge arrived during a writing section that aborted
+	CommitDuringRound                                                    int // commit while a broadcast round of the node was in flight
+	PayloadsChecked, ReadsJudged, ReadsDiscarded                         int
+	Obligations, ObligationsDecided                                      int
+	FinalReads                                                           int
+	ConvergenceJudged                                                    bool
+	Quiesced, End                                                        string
+	FailedSends                                                          int
+	OriginStoppedEarly                                                   int // committed updates whose node stopped before the tick bound elapsed: delivery not judged
+	StallUs                                                              int64
+	Harness                                                              []string
 }
 
 type secInfo struct {
@@ -77,6 +80,9 @@ type oblig struct {
 	ticks      int
 	sec        *secInfo
 	roundAtCom bool
+	rounds     int // broadcast rounds the node started after the commit
+	roundsWith int // ... whose payload contained the committed updates
+	zeroTicks  int // ticks after the commit that found needBroadcastCount == 0
 }
 
 type nodeM struct {
@@ -97,7 +103,7 @@ type nodeM struct {
 	merged       int
 	ticksSinceQ  int
 	closed       bool
-	failedTo     map[int]bool
+	failedTo     map[int]int64 // peer -> sequence number of the latest failed or timed-out send to it
 	dispatched   map[string]bool
 }
 
@@ -110,6 +116,7 @@ type orc struct {
 	aborted    map[string]bool
 	origin     map[string]int
 	explained  []map[string]bool // per node: ids whose absence there is already attributed to a reported violation
+	excused    map[string]bool   // ids whose origin stopped before the tick bound after their commit had elapsed
 	findings   []Finding
 	seen       map[string]bool
 	st         Stats
@@ -219,7 +226,7 @@ func (o *orc) render(e *Ev) string {
 		fmt.Fprintf(&sb, " need=%d", e.Need)
 	case "sdone":
 		fmt.Fprintf(&sb, " ok=%v", e.OK)
-	case "merged", "h.commit", "h.abort":
+	case "merged", "h.abort":
 		fmt.Fprintf(&sb, " section_open=%v", e.In)
 	}
 	if e.V != nil {
@@ -316,18 +323,19 @@ func (o *orc) judge(lower, upper map[string]bool, rd *ReadObs) (j readJ) {
 
 // onlyViaAbortedSection: every merge that brought id to node n happened while a writing section was open
 // that subsequently aborted.
-func (o *orc) onlyViaAbortedSection(n int, id string) bool {
+func (o *orc) onlyViaAbortedSection(n int, id string, before int64) bool {
 	nm := o.nodes[n]
-	ms := nm.merges[id]
-	if len(ms) == 0 {
-		return false
-	}
-	for _, m := range ms {
+	seen := false
+	for _, m := range nm.merges[id] {
+		if m.seq > before {
+			break
+		}
+		seen = true
 		if m.sec < 0 || nm.outcomes[m.sec] != "abort" {
 			return false
 		}
 	}
-	return true
+	return seen
 }
 
 func (o *orc) reportRead(n int, j readJ, lowerAll map[string]bool, what string) {
@@ -345,7 +353,7 @@ func (o *orc) reportRead(n int, j readJ, lowerAll map[string]bool, what string) 
 			switch {
 			case o.origin[id] == n:
 				own = append(own, id)
-			case o.onlyViaAbortedSection(n, id):
+			case o.onlyViaAbortedSection(n, id, j.seq):
 				viaAbort = append(viaAbort, id)
 			default:
 				other = append(other, id)
@@ -476,7 +484,7 @@ func (o *orc) endSection(n int, e *Ev, outcome string) {
 	}
 	nm.secRange[s.idx] = [2]int64{from, e.Seq}
 	wrote := len(nm.inflight) > 0
-	if e.In != wrote {
+	if outcome == "abort" && e.In != wrote {
 		o.harness("section bookkeeping of node %d disagrees with the resource at #%d (hasOldValue=%v, writes seen=%d)", n, e.Seq, e.In, len(nm.inflight))
 	}
 	if wrote {
@@ -534,6 +542,9 @@ func (o *orc) onTick(n int, e *Ev) {
 	keep := nm.obligs[:0]
 	for _, ob := range nm.obligs {
 		ob.ticks++
+		if e.Need == 0 && ob.ticks <= tickBound {
+			ob.zeroTicks++
+		}
 		if ob.ticks <= tickBound {
 			keep = append(keep, ob)
 			continue
@@ -542,7 +553,8 @@ func (o *orc) onTick(n int, e *Ev) {
 		o.st.ObligationsDecided++
 		missing := map[string][]string{}
 		for p := 1; p <= o.c.Nodes; p++ {
-			if p == n || nm.failedTo[p] || o.nodes[p].closed {
+			// "connected": no send of this node to p failed or timed out since the commit, and p is still up
+			if p == n || nm.failedTo[p] > ob.commitSeq || o.nodes[p].closed {
 				continue
 			}
 			pm := o.nodes[p]
@@ -556,30 +568,45 @@ func (o *orc) onTick(n int, e *Ev) {
 		if len(missing) == 0 {
 			continue
 		}
-		shape := "other"
+		// shape of the witness: what did the node do in the tickBound ticks after the commit?
+		shape := ""
 		switch {
-		case ob.sec.roundIn:
-			shape = "stale-round-between-write-and-commit"
-		case ob.sec.roundOpenAtWrite || ob.roundAtCom:
-			shape = "stale-round-in-flight-at-write-or-commit"
+		case ob.rounds == 0 && ob.zeroTicks == tickBound:
+			// every tick found the counter at zero: something used up (or never set up) the debt of this commit
+			shape = "counter-zero-after-commit:"
+			switch {
+			case ob.sec.roundIn:
+				shape += "stale-round-between-write-and-commit"
+			case ob.sec.roundOpenAtWrite || ob.roundAtCom:
+				shape += "stale-round-in-flight-at-write-or-commit"
+			default:
+				shape += "no-stale-round-seen"
+			}
+		case ob.rounds == 0:
+			shape = "no-round-although-counter-positive"
+		case ob.roundsWith == 0:
+			shape = "rounds-carry-payload-without-the-update"
+		default:
+			shape = "round-without-send-to-peer"
 		}
 		o.add("committed-update-not-broadcast:"+shape,
 			fmt.Sprintf("%d ticks of the committing node passed after a commit without any payload containing the committed update being sent towards a connected peer", tickBound+1),
 			map[string]any{"node": n, "updates": ob.ids, "first_write_seq": ob.firstWrite, "commit_seq": ob.commitSeq, "decided_at_tick_seq": e.Seq,
 				"never_dispatched_to": missing, "round_started_between_write_and_commit": ob.sec.roundIn,
 				"round_in_flight_at_first_write": ob.sec.roundOpenAtWrite, "round_in_flight_at_commit": ob.roundAtCom,
+				"rounds_started_after_commit": ob.rounds, "of_which_payload_contained_the_updates": ob.roundsWith, "ticks_after_commit_with_counter_zero": ob.zeroTicks,
 				"excerpt": o.excerpt(n, ob.firstWrite-3, e.Seq, 70)})
 	}
 	nm.obligs = keep
 }
 
 func runOracle(c Case, evs []Ev) ([]Finding, Stats) {
-	o := &orc{c: c, evs: evs, committed: map[string]int64{}, aborted: map[string]bool{}, origin: map[string]int{}, seen: map[string]bool{}}
+	o := &orc{c: c, evs: evs, committed: map[string]int64{}, aborted: map[string]bool{}, origin: map[string]int{}, seen: map[string]bool{}, excused: map[string]bool{}}
 	o.nodes = make([]*nodeM, c.Nodes+1)
 	o.explained = make([]map[string]bool, c.Nodes+1)
 	for i := range o.nodes {
 		o.nodes[i] = &nodeM{K: map[string]bool{}, leaked: map[string]bool{}, outcomes: map[int]string{}, secRange: map[int][2]int64{},
-			merges: map[string][]mergeRec{}, failedTo: map[int]bool{}, dispatched: map[string]bool{}}
+			merges: map[string][]mergeRec{}, failedTo: map[int]int64{}, dispatched: map[string]bool{}}
 		o.newSection(o.nodes[i], 0)
 		o.explained[i] = map[string]bool{}
 	}
@@ -587,6 +614,7 @@ func runOracle(c Case, evs []Ev) ([]Finding, Stats) {
 	for i := range evs {
 		if evs[i].K == "end" {
 			o.st.End = evs[i].X
+			o.st.StallUs = evs[i].Stall
 		}
 	}
 	for i := range evs {
@@ -634,6 +662,19 @@ func runOracle(c Case, evs []Ev) ([]Finding, Stats) {
 			if len(nm.inflight) > 0 {
 				nm.sec.roundIn = true
 			}
+			if len(nm.obligs) > 0 {
+				in := setOf(nm.roundPayload)
+				for _, ob := range nm.obligs {
+					ob.rounds++
+					all := true
+					for _, id := range ob.ids {
+						all = all && in[id]
+					}
+					if all {
+						ob.roundsWith++
+					}
+				}
+			}
 			o.checkPayload(e.N, e)
 		case "send":
 			o.st.Sends++
@@ -643,7 +684,8 @@ func runOracle(c Case, evs []Ev) ([]Finding, Stats) {
 			}
 		case "sdone":
 			if !e.OK {
-				nm.failedTo[e.P] = true
+				o.st.FailedSends++
+				nm.failedTo[e.P] = e.Seq
 			} else {
 				for _, id := range idsOf(c.Coding, e.V) {
 					nm.dispatched[id] = true
@@ -712,6 +754,15 @@ func runOracle(c Case, evs []Ev) ([]Finding, Stats) {
 			nm.lower = nil
 		case "closed":
 			nm.closed = true
+			// a node that stops is outside the statement ("peers reachable from the time of the update"): its
+			// still undecided deliveries are not judged, nor is convergence on them
+			for _, ob := range nm.obligs {
+				for _, id := range ob.ids {
+					o.excused[id] = true
+					o.st.OriginStoppedEarly++
+				}
+			}
+			nm.obligs = nil
 		case "quiesced":
 			o.st.Quiesced = e.X
 			o.quiescedOK = e.X == "ok"
@@ -733,6 +784,16 @@ func runOracle(c Case, evs []Ev) ([]Finding, Stats) {
 		}
 	}
 	return o.findings, o.st
+}
+
+// sendFailedSince: a send of id's origin to node n failed or timed out after id was committed — n was not a
+// connected peer for that update.
+func (o *orc) sendFailedSince(id string, n int) bool {
+	org, ok := o.origin[id]
+	if !ok {
+		return false
+	}
+	return o.nodes[org].failedTo[n] > o.committed[id]
 }
 
 func (o *orc) finalRead(e *Ev) {
@@ -762,7 +823,7 @@ func (o *orc) finalRead(e *Ev) {
 		if jc.deficit > 0 {
 			ex := 0
 			for id := range all {
-				if o.explained[n][id] {
+				if o.explained[n][id] || o.excused[id] || o.sendFailedSince(id, n) {
 					ex++
 				}
 			}
@@ -772,7 +833,7 @@ func (o *orc) finalRead(e *Ev) {
 		}
 	} else {
 		for _, id := range jc.lost {
-			if !o.explained[n][id] {
+			if !o.explained[n][id] && !o.excused[id] && !o.sendFailedSince(id, n) {
 				unexplained = append(unexplained, id)
 			}
 		}
